@@ -20,13 +20,18 @@ for q in ("TimePoint._copy", "TimePoint.get_is_calendar_date",
     contract("data:" + q, inline=True)
 
 
+def REGISTRY_GET(k):
+    from . import REGISTRY
+    return REGISTRY[k]
+
+
 def havoc_self_numeric(E, st, env):
     """After _tick_over the point is normal: integral time fields are built as
     ToReal(Int) symbols (their integrality is part of the assumed ensures)."""
     from .shapes import normal_time_fields
     h = st.obj(env["self"])
     E.fresh_n += 1
-    nt = normal_time_fields(E, h.slots, "tick!%d" % E.fresh_n)
+    nt = normal_time_fields(E, h.slots, "tick!%d" % E.fresh_n, keep_whole=True)
     for k in NUM_SLOTS:
         if h.slots.get(k) is not None:
             h.slots[k] = nt[k] if k in nt else \
@@ -98,7 +103,17 @@ contract(
         "local_instant(self) == old(local_instant(self))",
         "result is None",
         "implies(old(valid_date(self) and time_normal(self)), %s)" % " and ".join(
-            "self.%s == old(self.%s)" % (k, k) for k in NUM_SLOTS)],
+            "self.%s == old(self.%s)" % (k, k) for k in NUM_SLOTS),
+        "implies(old(whole_seconds(self)), whole_seconds(self))",
+        "use_lemma('day.floor', a=date_abs(self) - old(date_abs(self)), r=sod(self),"
+        " x=old(sod(self)))",
+        "date_abs(self) == old(date_abs(self)) + fdiv(old(sod(self)), 86400)",
+        "sod(self) == old(sod(self)) - 86400 * fdiv(old(sod(self)), 86400)",
+        "implies(old(whole_seconds(self)), hms_from_sod(self))",
+        "implies(old(whole_seconds(self)), isod(self) == old(isod(self))"
+        " - 86400 * (old(isod(self)) // 86400))",
+        "implies(old(whole_seconds(self)), date_abs(self) == old(date_abs(self))"
+        " + old(isod(self)) // 86400)"],
     loops={
         0: LoopSpec(invariant=[_ABS], decreases="1 - self._day_of_year"),
         1: LoopSpec(invariant=[_ABS, "self._day_of_year >= 1"],
@@ -117,8 +132,27 @@ contract(
                                "self._month_of_year == entry(self._month_of_year)"],
                     decreases="self._month_of_year"),
     },
-    cases=[Case("%s-%s" % (d, t), tp_case(d, t, integral=False))
-           for d in DATES for t in TIMES])
+    cases=[])
+_TO = REGISTRY_GET("data:TimePoint._tick_over")
+_WHOLE = "implies(old(whole_seconds(self)), whole_seconds(self))"
+_WHOLE2 = "implies(old(whole_seconds(self)), hms_from_sod(self))"
+_WHOLE3a = ("implies(old(whole_seconds(self)), isod(self) == old(isod(self))"
+            " - 86400 * (old(isod(self)) // 86400))")
+_WHOLE3b = ("implies(old(whole_seconds(self)), date_abs(self) == old(date_abs(self))"
+            " + old(isod(self)) // 86400)")
+_TO.cases = [Case("%s-%s" % (d, t), tp_case(d, t, integral=False),
+                  ensures=[e for e in _TO.ensures
+                           if e not in (_WHOLE, _WHOLE2, _WHOLE3a, _WHOLE3b)])
+             for d in DATES for t in TIMES] + [
+    # integrality: inputs satisfying whole_seconds() are exactly those of the
+    # form ToReal(<Int>), which is how these cases build them
+    Case("%s-%s-whole" % (d, t), lambda E, st, d=d, t=t: {
+        "self": mk_timepoint(E, st, "self", d, t, integral=True, whole=True)},
+        ensures=["whole_seconds(self)", "hms_from_sod(self)",
+                 "86400 * date_abs(self) + isod(self) == old(86400 * date_abs(self) + isod(self))",
+                 "use_lemma('day.floor.int', a=date_abs(self) - old(date_abs(self)),"
+                 " r=isod(self), x=old(isod(self)))", _WHOLE3a, _WHOLE3b])
+    for d in DATES for t in TIMES]
 
 
 # ---------------------------------------------------------------- __add__ (Duration)
@@ -151,13 +185,23 @@ SAME_ZONE = [
 ]
 
 
+_ADD_WHOLE = ("implies(d_exact(other) and whole_seconds(self) and dwhole(other)"
+              " and self._second_of_minute is not None, whole_seconds(result))")
+
+
 def add_cases():
     out = []
     for d in DATES:
         for t in TIMES:
             for f in ("exact", "week"):
                 out.append(Case("%s-%s+%s" % (d, t, f), tp_case(
-                    d, t, lambda E, st, f=f: {"other": mk_duration(E, st, "other", f)})))
+                    d, t, lambda E, st, f=f: {"other": mk_duration(E, st, "other", f)}),
+                    ensures="GENERAL"))
+        # integrality: whole-second h:m:s point + whole-valued exact duration
+        out.append(Case("%s-hms+exact-whole" % d, lambda E, st, d=d: {
+            "self": mk_timepoint(E, st, "self", d, "hms", whole=True),
+            "other": mk_duration(E, st, "other", "exact-whole")},
+            ensures=["whole_seconds(result)"]))
     return out
 
 
@@ -185,14 +229,16 @@ contract(
     applicable=lambda E, st, env: is_full_tp(E, st, env["self"]) and
     is_duration(E, st, env["other"]),
     inline_fallback=True,
-    requires=["normal24(self)"],
+    requires=["normal24(self) if not self._truncated else True"],
     result=add_result, fresh_result=True,
     ensures=["fresh(result)"] + SAME_SHAPE + SAME_ZONE + [
         "valid_date(result)",
         "implies(d_exact(other), time_normal(result))",
         "implies(d_exact(other), instant(result) == instant(self) + dlen(other))",
         "implies(years_only(other), year_step_ok(result, self, d_years(other))"
-        " and same_time_and_zone(result, self))"],
+        " and same_time_and_zone(result, self))",
+        "implies(d_exact(other) and whole_seconds(self) and dwhole(other)"
+        " and self._second_of_minute is not None, whole_seconds(result))"],
     cases=add_cases() + nominal_cases(), merge=False, opaque=["dby"],
     note="exact durations (C01); nominal parts: C05 cases")
 
@@ -308,6 +354,9 @@ contract(
         "result._time_zone is dest_time_zone",
         "valid_date(result)", "time_normal24(result)",
         "instant(result) == instant(self)",
+        "implies(time_normal(self), time_normal(result))",
+        "implies(whole_seconds(self) and self._second_of_minute is not None,"
+        " whole_seconds(result))",
         "unchanged(self)", "unchanged(dest_time_zone)"],
     cases=tz_cases() + [
         Case("unknown-dest", lambda E, st: {
@@ -579,3 +628,250 @@ contract(
     returns="intstr(instant(self) - %s)" % _EPOCH,
     cases=tz_cases(False),
     note="whole-second points: the text of the exact integer distance from the epoch")
+
+
+# ---------------------------------------------------------------- add_truncated (C20)
+_NORMW = ["valid_date(new)", "time_normal(new)", "whole_seconds(new)",
+          "same_zone(new, self)"]
+_L = "local_instant(new)"
+_L0 = "entry(local_instant(new))"
+
+
+_IL = "(86400 * date_abs(new) + isod(new))"
+_IL0 = "entry(86400 * date_abs(new) + isod(new))"
+
+
+def _tloop(field, unit, mod, target, keep):
+    f = "int(new.%s)" % field
+    f0 = "int(entry(new.%s))" % field
+    return LoopSpec(
+        invariant=_NORMW + ["hms_from_sod(new)"] +
+        ["new.%s == entry(new.%s)" % (k, k) for k in keep] + [
+            "%s == %s + %d * ((%s - %s) %% %d)" % (_IL, _IL0, unit, f, f0, mod),
+            "(%s - %s) %% %d <= (%s - %s) %% %d" % (f, f0, mod, target, f0, mod)],
+        decreases="(%s - %s) %% %d" % (target, f, mod))
+
+
+_G_CAL = ("valid_cal(gy, gm, gd) and entry(date_abs(new)) <= cal_abs(gy, gm, gd)"
+          " and cal_abs(gy, gm, gd) < date_abs(new)")
+_G_ORD = ("valid_ord(gy, gn) and entry(date_abs(new)) <= absday(gy, gn)"
+          " and absday(gy, gn) < date_abs(new)")
+_DAYKEEP = ["valid_date(new)", "time_normal(new)", "same_zone(new, self)",
+            "sod(new) == entry(sod(new))", "date_abs(new) >= entry(date_abs(new))"]
+AT_LOOPS = {
+    0: _tloop("_second_of_minute", 1, 60, "second_of_minute", []),
+    1: _tloop("_minute_of_hour", 60, 60, "minute_of_hour", ["_second_of_minute"]),
+    2: _tloop("_hour_of_day", 3600, 24, "hour_of_day",
+              ["_second_of_minute", "_minute_of_hour"]),
+    3: LoopSpec(invariant=_DAYKEEP + [
+        "date_abs(new) == entry(date_abs(new))"
+        " + (new._day_of_week - entry(new._day_of_week)) % 7",
+        "(new._day_of_week - entry(new._day_of_week)) % 7"
+        " <= (day_of_week - entry(new._day_of_week)) % 7"],
+        decreases="(day_of_week - new._day_of_week) % 7"),
+    4: LoopSpec(invariant=_DAYKEEP + [
+        "use_lemma('cal.key.order', y1=gy, m1=gm, d1=gd, y2=new._year,"
+        " m2=new._month_of_year, d2=new._day_of_month)",
+        "implies(%s, gd != day_of_month)" % _G_CAL],
+        decreases="(day_of_month - new._day_of_month) if new._day_of_month <= day_of_month"
+                  " else (dim(new._year, new._month_of_year) - new._day_of_month"
+                  " + day_of_month)"),
+    5: LoopSpec(invariant=_DAYKEEP + [
+        "use_lemma('ord.key.order', y1=gy, n1=gn, y2=new._year, n2=new._day_of_year)",
+        "implies(%s, gn != day_of_year)" % _G_ORD],
+        decreases="(day_of_year - new._day_of_year) if new._day_of_year <= day_of_year"
+                  " else (diy(new._year) - new._day_of_year + day_of_year)"),
+    6: LoopSpec(invariant=_DAYKEEP + [
+        "new._day_of_week == entry(new._day_of_week)",
+        "(date_abs(new) - entry(date_abs(new))) % 7 == 0",
+        "implies(entry(date_abs(new)) <= week_abs(gy, gw, new._day_of_week)"
+        " and week_abs(gy, gw, new._day_of_week) < date_abs(new)"
+        " and 1 <= gw and gw <= wiy(gy), gw != week_of_year)"],
+        decreases="(week_of_year - new._week_of_year)"
+                  " if new._week_of_year <= week_of_year"
+                  " else (wiy(new._year) - new._week_of_year + week_of_year)"),
+}
+
+_AT_COMMON = ["fresh(result)", "unchanged(self)", "valid_date(result)",
+              "time_normal(result)", "same_zone(result, self)",
+              "local_instant(result) >= local_instant(self)"]
+_TIME_POST = _AT_COMMON + [
+    "local_instant(result) - local_instant(self) < BOUND",
+    "whole_seconds(result)",
+    "result._second_of_minute is not None and result._minute_of_hour is not None"]
+
+
+def at_case(name, date, time, params, requires, ensures):
+    bound = "86400" if "hour_of_day" in params else (
+        "3600" if "minute_of_hour" in params else "60")
+    ensures = [e.replace("BOUND", bound) for e in ensures]
+
+    def build(E, st):
+        d = {"self": mk_timepoint(E, st, "self", date, time, whole=True)}
+        for p in params:
+            d[p] = E.sym_int(p)
+        return d
+    return Case(name, build, requires=requires, ensures=ensures)
+
+
+def at_cases():
+    out = []
+    R_S = "0 <= second_of_minute and second_of_minute < 60"
+    R_M = "0 <= minute_of_hour and minute_of_hour < 60"
+    R_H = "0 <= hour_of_day and hour_of_day < 24"
+    for d in DATES:
+        for t in TIMES:
+            sh = "%s-%s" % (d, t)
+            out.append(at_case(sh + ":ss", d, t, ["second_of_minute"], [R_S], _TIME_POST + [
+                "result._second_of_minute == second_of_minute"]))
+            out.append(at_case(sh + ":mm", d, t, ["minute_of_hour"], [R_M], _TIME_POST + [
+                "result._minute_of_hour == minute_of_hour and result._second_of_minute == 0"]))
+            out.append(at_case(sh + ":hh", d, t, ["hour_of_day"], [R_H], _TIME_POST + [
+                "result._hour_of_day == hour_of_day and result._minute_of_hour == 0"
+                " and result._second_of_minute == 0"]))
+            out.append(at_case(sh + ":hhmmss", d, t,
+                               ["hour_of_day", "minute_of_hour", "second_of_minute"],
+                               [R_H, R_M, R_S], _TIME_POST + [
+                "result._hour_of_day == hour_of_day and result._minute_of_hour == minute_of_hour"
+                " and result._second_of_minute == second_of_minute"]))
+        out.append(at_case("%s-hms:mmss" % d, d, "hms", ["minute_of_hour", "second_of_minute"],
+                           [R_M, R_S], _TIME_POST + [
+            "result._minute_of_hour == minute_of_hour"
+            " and result._second_of_minute == second_of_minute"]))
+        # day designators (time of day unchanged)
+        out.append(at_case("%s-hms:dow" % d, d, "hms", ["day_of_week"],
+                           ["1 <= day_of_week and day_of_week <= 7"], _AT_COMMON + [
+            "is_week(result) and result._day_of_week == day_of_week",
+            "sod(result) == sod(self)",
+            "date_abs(result) - date_abs(self) < 7"]))
+        out.append(at_case("%s-hms:dom" % d, d, "hms", ["day_of_month"],
+                           ["1 <= day_of_month and day_of_month <= MAXDIM - 3 + (MAXDIM == 30) * 3"],
+                           _AT_COMMON + [
+            "is_cal(result) and result._day_of_month == day_of_month",
+            "sod(result) == sod(self)",
+            "implies(valid_cal(gy, gm, gd) and date_abs(self) <= cal_abs(gy, gm, gd)"
+            " and cal_abs(gy, gm, gd) < date_abs(result), gd != day_of_month)"]))
+        out.append(at_case("%s-hms:doy" % d, d, "hms", ["day_of_year"],
+                           ["1 <= day_of_year and day_of_year <= SUM"], _AT_COMMON + [
+            "is_ord(result) and result._day_of_year == day_of_year",
+            "sod(result) == sod(self)",
+            "implies(valid_ord(gy, gn) and date_abs(self) <= absday(gy, gn)"
+            " and absday(gy, gn) < date_abs(result), gn != day_of_year)"]))
+    return out
+
+
+contract(
+    "data:TimePoint.add_truncated", use_at_calls=False, opaque=["dby"],
+    ghosts={"gy": "int", "gm": "int", "gd": "int", "gn": "int", "gw": "int"},
+    requires=["valid_date(self)", "time_normal(self)", "whole_seconds(self)",
+              "tz_ok(self._time_zone)"],
+    loops=AT_LOOPS, cases=at_cases(),
+    note="earliest date-time >= p whose specified fields equal the targets; termination "
+         "proved for targets that exist in every month/year")
+
+
+# ---------------------------------------------------------------- truncated + full (C20)
+from .shapes import mk_truncated  # noqa
+_TZD = "(tz_seconds(self._time_zone) - tz_seconds(other._time_zone))"
+_TOD_T = "((isod(result) + %s) %% 86400)" % _TZD      # result's second of day in t's zone
+
+
+def trunc_add_cases():
+    out = []
+    specs = {
+        "hh": (["_hour_of_day"], ["0 <= self._hour_of_day and self._hour_of_day < 24"],
+               "%s == 3600 * self._hour_of_day" % _TOD_T),
+        "mm": (["_minute_of_hour"], ["0 <= self._minute_of_hour and self._minute_of_hour < 60"],
+               "%s %% 3600 == 60 * self._minute_of_hour" % _TOD_T),
+        "ss": (["_second_of_minute"],
+               ["0 <= self._second_of_minute and self._second_of_minute < 60"],
+               "%s %% 60 == self._second_of_minute" % _TOD_T),
+        "hhmm": (["_hour_of_day", "_minute_of_hour"],
+                 ["0 <= self._hour_of_day and self._hour_of_day < 24",
+                  "0 <= self._minute_of_hour and self._minute_of_hour < 60"],
+                 "%s == 3600 * self._hour_of_day + 60 * self._minute_of_hour" % _TOD_T),
+    }
+    for nm, (fields, req, match) in specs.items():
+        for zk in (False, True):
+            for (d, t) in ((("cal", "hms"), ("ord", "hms"), ("week", "hms")) if zk else
+                           (("cal", "hms"), ("ord", "hm"), ("week", "h"))):
+                def build(E, st, fields=fields, zk=zk, d=d, t=t):
+                    return {"self": mk_truncated(E, st, "self", fields, zk),
+                            "other": mk_timepoint(E, st, "other", d, t, whole=True)}
+                out.append(Case(
+                    "trunc:%s:%s+%s-%s" % (nm, "zone" if zk else "nozone", d, t), build,
+                    requires=req + ["valid_date(other)", "time_normal(other)",
+                                    "tz_ok(other._time_zone)", "tz_ok(self._time_zone)"],
+                    ensures=["fresh(result)", "unchanged(self)", "unchanged(other)",
+                             "valid_date(result)", "time_normal(result)",
+                             "whole_seconds(result)", "same_zone(result, other)",
+                             "instant(result) >= instant(other)",
+                             "instant(result) - instant(other) < %d" % (
+                                 86400 if "_hour_of_day" in fields else
+                                 3600 if "_minute_of_hour" in fields else 60),
+                             match if zk else match.replace(_TZD, "0")]))
+    return out
+
+
+_ADD = REGISTRY_GET("data:TimePoint.__add__")
+for _c in _ADD.cases:
+    if _c.ensures == "GENERAL":
+        _c.ensures = [e for e in _ADD.ensures if e != _ADD_WHOLE]
+_ADD.cases += trunc_add_cases()
+
+
+# add_truncated as a callee (used by TimePoint.__add__ for truncated operands)
+def _at_shape(st, env):
+    tfields = [k for k in ("hour_of_day", "minute_of_hour", "second_of_minute")
+               if env.get(k) is not None]
+    dfields = [k for k in ("day_of_week", "day_of_month", "day_of_year", "week_of_year",
+                           "month_of_year", "year_of_decade", "year_of_century")
+               if env.get(k) is not None]
+    return tfields, dfields
+
+
+def at_applicable(E, st, env):
+    tf, df = _at_shape(st, env)
+    return is_full_tp(E, st, env["self"]) and bool(tf) and not df
+
+
+def at_result(E, st, env):
+    from .shapes import TP_SLOTS
+    src = st.obj(env["self"])
+    E.fresh_n += 1
+    n = E.fresh_n
+    slots = dict(src.slots)
+    for k in ("_year", "_month_of_year", "_day_of_year", "_day_of_month", "_day_of_week",
+              "_week_of_year"):
+        if slots.get(k) is not None:
+            slots[k] = z3.Int("at!%d.%s" % (n, k))
+    for k in ("_hour_of_day", "_minute_of_hour", "_second_of_minute"):
+        slots[k] = z3.ToReal(z3.Int("at!%d.%s" % (n, k)))
+    z = st.obj(src.slots["_time_zone"])
+    slots["_time_zone"] = E.new_obj(st, "TimeZone", dict(z.slots), fresh=True)
+    return E.new_obj(st, "TimePoint", slots, fresh=True)
+
+
+_SE = ("(second_of_minute if second_of_minute is not None else 0)")
+_ME = ("(minute_of_hour if minute_of_hour is not None else 0)")
+_AT = REGISTRY_GET("data:TimePoint.add_truncated")
+_AT.use_at_calls = True
+_AT.applicable = at_applicable
+_AT.inline_fallback = True
+_AT.result = at_result
+_AT.fresh_result = True
+_AT.ensures = _AT_COMMON + [
+    "whole_seconds(result)",
+    "local_instant(result) - local_instant(self) < (86400 if hour_of_day is not None else (3600 if minute_of_hour is not None else 60))",
+    "result._second_of_minute == " + _SE,
+    "(result._minute_of_hour == %s) if (minute_of_hour is not None or hour_of_day is not None)"
+    " else True" % _ME,
+    "(result._hour_of_day == hour_of_day) if hour_of_day is not None else True",
+    "hms_from_sod(result)"]
+_AT.requires = _AT.requires + [
+    "(0 <= second_of_minute and second_of_minute < 60) if second_of_minute is not None else True",
+    "(0 <= minute_of_hour and minute_of_hour < 60) if minute_of_hour is not None else True",
+    "(0 <= hour_of_day and hour_of_day < 24) if hour_of_day is not None else True"]
+for _c in _AT.cases:
+    if _c.name.split(":")[1] in ("ss", "mm", "hh", "hhmmss", "mmss"):
+        _c.ensures = list(_c.ensures) + ["hms_from_sod(result)"]
